@@ -84,7 +84,7 @@ void vf_run_case(Ctx& c, uint64_t index) {
   {
     AJ::JsonDocument doc(&sa);
     // destination state
-    unsigned dstate = (unsigned)r.below(8);
+    unsigned dstate = (unsigned)r.below(10);
     MVal prev; GenOpt pg; pg.max_depth = 3; pg.allow_raw_json = true;
     AJ::DeserializationError err;
     AJ::JsonVariantConst got;
@@ -111,6 +111,23 @@ void vf_run_case(Ctx& c, uint64_t index) {
         doc.add(1);
         err = AJ::deserializeJson(doc[2], (const char*)in, text.size(), nl);
         got = doc[2];
+        break;
+      }
+      case 8: {  // element destination right after the last element of a parsed array was removed
+        AJ::deserializeJson(doc, "[1,\"two\",[3],{\"k\":4}]");
+        size_t keep = (size_t)r.range(1, 3);
+        while (doc.size() > keep) doc.remove(doc.size() - 1);
+        err = AJ::deserializeJson(doc[keep], (const char*)in, text.size(), nl);
+        got = doc[keep];
+        if (doc.size() != keep + 1 || doc[0] != 1) c.violation("sibling-changed", "array does not have the expected elements after deserializing into the element behind a removed one (size " + std::to_string(doc.size()) + ")", wit);
+        break;
+      }
+      case 9: {  // member destination right after the last member of a parsed object was removed
+        AJ::deserializeJson(doc, "{\"a\":1,\"b\":[2],\"dst\":{\"x\":3},\"z\":null}");
+        if (r.coin()) doc.remove("z"); else { doc.remove("z"); doc.remove("dst"); }
+        err = AJ::deserializeJson(doc["dst"], (const char*)in, text.size(), nl);
+        got = doc["dst"];
+        if (doc["a"] != 1 || doc.as<AJ::JsonObjectConst>().size() != 3) c.violation("sibling-changed", "object does not have the expected members after deserializing into a member behind a removed one", wit);
         break;
       }
       default: {  // JsonVariant destination
